@@ -140,3 +140,13 @@ Proof. vm_compute. split; reflexivity. Qed.
 Print Assumptions C14_from_utf16_valid.
 Print Assumptions C14_from_utf16_roundtrip.
 Print Assumptions C14_from_utf16_exact.
+
+(* tie to the source text: the loop body of Utf8LossyChunksIter::next, parsed from lossy.rs on every
+   run (LossyProgActual.v) and given meaning by Utf8Prog.run_prog, decides exactly as the model's
+   scan_step on every byte string at every position *)
+From BV Require Import Utf8Prog LossyProgActual LossyProgOk.
+Theorem C14_source_decoder : forall src i, bytes src ->
+  run_prog lossy_prog_actual actual_width src i = scan_step actual_width src i.
+Proof. intros src i B. exact (lossy_source_ok actual_width src i B). Qed.
+
+Print Assumptions C14_source_decoder.
